@@ -68,7 +68,7 @@ def make_workload(seed, i):
         for k, imp in enumerate(pkg.imports[:2]):
             imp.files[sorted(imp.files)[0]].append(M.Record(nm, (), [("f%d" % k, M.Prim(sh.choice(["int32", "string"])))]))
         desc["type_name_shared_by_two_imports"] = nm
-    if kind in ("versions", "invalid") and rng.chance(0.8 if kind == "versions" else 0.4):
+    if kind in ("versions", "invalid") and rng.chance(0.8 if kind == "versions" else 0.55):
         if rng.chance(0.5):
             # give the oldest version extra protocols that the newest no longer has: every removed protocol
             # yields a warning, and they are all attached to the same location
@@ -109,8 +109,15 @@ def make_workload(seed, i):
         # several independent errors so that the order of diagnostics matters
         n = rng.randint(1, 4)
         what = []
+        dirs = sorted({p.rsplit("/", 1)[0] for p in files})
+        # one error in each of several previous versions: which version's errors are reported (the first one listed) must not vary
+        vdirs = [dv for dv in ("/w/" + v.dirname for _, v in pkg.versions) if dv in dirs]
+        per_version = len(vdirs) >= 2 and rng.fork("pervers").chance(0.6)
+        if per_version:
+            n = len(vdirs) + rng.randint(0, 1)
+            desc["errors_in_several_versions"] = len(vdirs)
         for j in range(n):
-            target = rng.choice(sorted({p.rsplit("/", 1)[0] for p in files}))
+            target = vdirs[j] if (per_version and j < len(vdirs)) else rng.choice(dirs)
             f2, d = E.invalidate(files, target, rng.fork("inv", j), rng.choice(E.INVALID_KINDS[1:5] + ["stream_in_record", "unqualified_import_ref", "unqualified_import_ref"] + E.RULE_KINDS))
             if f2:
                 files, _ = f2, what.append(d)
@@ -118,20 +125,31 @@ def make_workload(seed, i):
     return desc, files, "/w/pkg"
 
 
+def sched_for(seed, i, k):
+    if k == 0:
+        return {}
+    r = M.derive(seed, "sched", i, k)
+    return {"gpolicy": ["sticky", "pct", "starve", "rtc"][k % 4], "seed": r.next() % (1 << 31) + 1, "p_switch": r.choice([0.1, 0.3, 0.6])}
+
+
 def run_case(sim, check, seed, i, K, n_crash):
     desc, files, cwd = make_workload(seed, i)
     mapseeds = [M.derive(seed, "mapseed", i, k).next() % (1 << 31) + 1 for k in range(K)]
-    results = [sim.run(tw.oneshot_spec(files, cwd), mapseed=ms) for ms in mapseeds]
+    # each execution also gets its own goroutine schedule (should the tool start goroutines): run to completion first,
+    # then the other scheduler policies with a seed of their own
+    scheds = [sched_for(seed, i, k) for k in range(K)]
+    results = [sim.run(tw.oneshot_spec(files, cwd, **sc), mapseed=ms) for ms, sc in zip(mapseeds, scheds)]
+    stats_goroutines = max(len({o.get("g") for o in r.get("ops", []) if o.get("g")}) for r in results)
     outs = [outcome(r) for r in results]
     stats = {"runs": K, "desc": desc, "accepted": outs[0][0] == "returned" and outs[0][1] == 0,
-             "has_diag": bool(outs[0][2]), "n_mut": results[0].get("n_mut", 0)}
+             "has_diag": bool(outs[0][2]), "n_mut": results[0].get("n_mut", 0), "goroutines": stats_goroutines}
     viols = []
     base = outs[0]
     for k in range(1, K):
         what, where = first_diff(base, outs[k])
         if what:
             viols.append(({"class": "differs_across_runs", "what": what, "where": where.replace("/w/", "") if what == "file" else where[:300]},
-                          {"mode": "seeds", "files": files, "cwd": cwd, "mapseeds": [mapseeds[0], mapseeds[k]], "seed": seed, "case": desc}))
+                          {"mode": "seeds", "files": files, "cwd": cwd, "mapseeds": [mapseeds[0], mapseeds[k]], "scheds": [scheds[0], scheds[k]], "seed": seed, "case": desc}))
             break
     if base[0] == "died":
         return stats, viols
@@ -234,8 +252,9 @@ def replay(sim, doc):
     files, cwd, ms = doc["files"], doc["cwd"], doc["mapseeds"]
     mode = doc["mode"]
     if mode == "seeds":
-        a = outcome(sim.run(tw.oneshot_spec(files, cwd), mapseed=ms[0]))
-        b = outcome(sim.run(tw.oneshot_spec(files, cwd), mapseed=ms[1]))
+        sc = doc.get("scheds") or [{}, {}]
+        a = outcome(sim.run(tw.oneshot_spec(files, cwd, **sc[0]), mapseed=ms[0]))
+        b = outcome(sim.run(tw.oneshot_spec(files, cwd, **sc[1]), mapseed=ms[1]))
         what, where = first_diff(a, b)
         return bool(what), "%s %s" % (what, where)
     if mode == "rerun":
@@ -315,7 +334,7 @@ def main():
     max_cases = 160 if quick else 100000
     totals = {"runs": 0, "accepted": 0, "rejected_with_diagnostics": 0, "with_versions": 0, "invalid": 0,
               "crash_points": 0, "crash_left_torn_file": 0, "crash_left_same_size_torn_file": 0, "warnings_seen": 0,
-              "dirty_starts": 0, "dirty_same_size_stale_file": 0}
+              "dirty_starts": 0, "dirty_same_size_stale_file": 0, "cases_with_errors_in_several_versions": 0, "executions_with_a_seeded_goroutine_schedule": 0, "cases_in_which_the_tool_ran_several_goroutines": 0}
     i = 0
     batch = 32
     while i < max_cases and check.elapsed() < budget:
@@ -329,6 +348,9 @@ def main():
             totals["warnings_seen"] += 1 if (stats["accepted"] and stats["has_diag"]) else 0
             totals["with_versions"] += 1 if d.get("versions") else 0
             totals["invalid"] += 1 if d["kind"] == "invalid" else 0
+            totals["cases_with_errors_in_several_versions"] += 1 if d.get("errors_in_several_versions") else 0
+            totals["executions_with_a_seeded_goroutine_schedule"] += K - 1
+            totals["cases_in_which_the_tool_ran_several_goroutines"] += 1 if stats.get("goroutines", 0) > 1 else 0
             totals["crash_points"] += stats.get("crash_points", 0)
             for key in ("crash_left_torn_file", "crash_left_same_size_torn_file", "dirty_starts", "dirty_same_size_stale_file"):
                 totals[key] += stats.get(key, 0)
